@@ -20,6 +20,8 @@ fn main() {
         Some("raw") => service::raw(&args[1..]),
         Some("bind") => service::bind(&args[1..]),
         Some("host-style") => service::host_style(),
+        Some("dispatch") => service::dispatch(),
+        Some("host-config") => service::host_config(),
         Some("wire-status") => service::wire_status(&args[1..]),
         Some("wire-de") => service::wire_de(&args[1..]),
         Some("wire-ser") => service::wire_ser(&args[1..]),
